@@ -13,9 +13,16 @@
    the classification of accesses as atomic / construction / confined to one goroutine / owned after
    removal from the map (listed with reasons in go/lockscrape/main.go and DESIGN.md), and the Go memory
    model itself.  The race detector run over the concurrent harnesses supports the search for a failing
-   schedule; it is testing. *)
+   schedule; it is testing.
+   (3) Proved: "reader/writer exclusion" (lock_ok above) is not merely assumed for the shard lock.  The
+   reader-biased RBMutex of internal/rbmutex.go is modelled one atomic operation at a time
+   (Model/RBMutex.v: bias flag, reader slots, the inner sync.RWMutex as holder sets) and, for every
+   number of slots, of threads and every schedule, a thread inside Lock..Unlock excludes every reader
+   and every other writer.  The real RBMutex is stepped through the same schedules (hook H8) and
+   compared with the model after every atomic operation.  sync.RWMutex and sync.Mutex stay trusted. *)
 From Coq Require Import String List Bool.
-From Verif Require Import Model.Lockset Gen.Access Proof.LocksetP Proof.LocksetI.
+From Coq Require Import ZArith.
+From Verif Require Import Model.Lockset Gen.Access Proof.LocksetP Proof.LocksetI Model.RBMutex Proof.RBMutexP.
 Import ListNotations.
 
 (* for ANY table: discipline excludes race states *)
@@ -47,3 +54,25 @@ Theorem c19_table_nonempty :
   existsb (String.eqb "Store.policyMu") (lock_names accesses) && existsb (String.eqb "Shard.mu") (lock_names accesses) = true.
 Proof. exact table_nonempty. Qed.
 Print Assumptions c19_table_nonempty.
+
+(* the shard lock: every schedule of every number of threads over any number of slots *)
+Theorem c19_rbmutex_excludes : forall (sched : list (Z * Z * Z)) (n w t : Z), (1 <= n)%Z ->
+  let r := fold_left rb_act sched (newRB n) in
+  writing (tpc r w) = true -> reading (tpc r t) = false /\ (writing (tpc r t) = true -> t = w).
+Proof. exact mutual_exclusion. Qed.
+Print Assumptions c19_rbmutex_excludes.
+
+(* non-vacuity: the modelled lock can be taken, on the fast path, by a writer that has to wait for a
+   fast reader, and on the slow path that re-enables the bias *)
+Theorem c19_rbmutex_example :
+  let r0 := newRB 4 in
+  let r1 := solo 6 (rb_act r0 (1, 0, 0)) 1 in
+  let r2 := solo 3 (rb_act r1 (2, 2, 0)) 2 in
+  let r3 := rb_act r2 (1, 1, 0) in
+  let r4 := solo 12 r3 2 in
+  let r5 := solo 6 (rb_act r4 (3, 0, 0)) 3 in
+  let r6 := solo 6 (rb_act r5 (2, 3, 0)) 3 in
+  reading (tpc r1 1) = true /\ writing (tpc r2 2) = false /\ writing (tpc r4 2) = true /\ reading (tpc r5 3) = false /\
+  reading (tpc r6 3) = true /\ rb_bias r6 = true.
+Proof. exact example_run. Qed.
+Print Assumptions c19_rbmutex_example.
